@@ -2,7 +2,7 @@
    immediate evaluation, Property::reset(), assigning a new immediate binding to a bound property, and destroying a property
    that no binding reads. *)
 From KDB Require Import Util UtilProofs PropDefs PropFlags PropLink PropLinkBasics PropLinkOps PropLinkTheorems PropSim PropGrow PropSimLazy PropGrowLazy.
-From KDB Require PropAbs PropAbsProofs PropProofs PropCheck.
+From KDB Require PropAbs PropAbsProofs PropProofs PropCheck PropReg.
 Module A := PropAbs.
 Module AP := PropAbsProofs.
 
@@ -242,6 +242,83 @@ Section More.
   Proof.
     intros H. destruct (kill_table_cases _ _ _ _ H) as [[_ E]|[(-> & _)|(_ & t & _ & K)]]; [discriminate E|auto|].
     split; [exact (ke_props _ _ _ K)|]. split; [exact (ke_binds _ _ _ K)|]. intros t' pos ser s Hs. apply (ke_slot _ _ _ K) in Hs. tauto.
+  Qed.
+
+  (* what ~Property of an unread property leaves behind *)
+  Lemma del_shape fuel w p w' :
+    pinv w -> NOACT w -> (forall b lf, has_leaf w b lf -> lf_tg lf <> Some p) ->
+    step1 fn rtl fuel w (PDel p) = (w', None) ->
+    exists pr, lookup (w_props w) p = Some pr /\ w_props w' = remove_key (w_props w) p /\
+      (forall b, pr_updater pr <> Some b -> get_bind w' b = get_bind w b) /\
+      (forall t pos ser s0, slot_at w' t pos ser s0 -> slot_at w t pos ser s0) /\
+      length (w_binds w') = length (w_binds w) /\
+      match pr_updater pr with
+      | Some bp => exists w1, w_evps w1 = w_evps w /\ get_bind w1 bp = get_bind w bp /\ w_evps w' = w_evps (fst (destroy_binding w1 bp)) /\
+                              get_bind w' bp = get_bind (fst (destroy_binding w1 bp)) bp
+      | None => w_evps w' = w_evps w end.
+  Proof.
+    intros Hinv Hna Hnr H. cbn [step1] in H. unfold destroy_prop in H.
+    destruct (lookup (w_props w) p) as [pr|] eqn:Hp; [|discriminate H].
+    assert (Pv : pview w p = Some (psigs_of pr)) by (unfold pview; rewrite Hp; reflexivity).
+    (* the tables of p hold plain observers only *)
+    assert (Hobs : forall k t, sig_of pr k = Some t -> exists tb, get_table w t = Some tb /\
+                     forall x ser s0, nth_error (t_slots tb) x = Some (Some (ser, s0)) -> exists label, s0 = SObs label None).
+    { intros k t Hk. assert (Ow : owns w p k t) by (exists (psigs_of pr); split; [exact Pv|destruct k; exact Hk]).
+      destruct (pi_own _ _ _ _ _ _ _ Hinv _ _ _ Ow (fun z => z)) as (sl & fr & Et). apply tview_Some in Et. destruct Et as (tb & Ht & <- & <- & Hal).
+      exists tb. split; [exact Ht|]. intros x ser s0 Hn.
+      assert (Hs : slot_at w t x ser s0) by (exists (t_slots tb), (t_free tb), (t_alive tb); split; [unfold tview; rewrite Ht; reflexivity|exact Hn]).
+      destruct s0 as [label act|b l]; [exists label; rewrite (Hna _ _ _ _ _ Hs); reflexivity|]. exfalso.
+      destruct (pi_slot _ _ _ _ _ _ _ Hinv _ _ _ _ _ (fun z => z) Hs) as (lf & Hl & Hid & _).
+      exact (Hnr b lf Hl (pi_slotown _ _ _ _ _ _ _ Hinv _ _ _ _ _ _ _ _ Hs Hl Hid Ow (fun z => z))). }
+    destruct (emit_obs_only (set_helper fn rtl fuel) w (pr_destroyed pr) p KDestroyed []) as (w1 & He & S1).
+    { intros t Et. destruct (Hobs KDestroyed t Et) as (tb & Ht & Ho). exists tb. split; [exact Ht|]. split; [|exact Ho].
+      destruct (t_emitting tb) eqn:Hem; [|reflexivity]. exfalso.
+      unfold emit in H. rewrite Et, Ht, Hem in H. discriminate H. }
+    rewrite He in H. destruct S1 as (T1 & P1 & B1 & E1 & _ & O1 & Hd1 & Sr1).
+    destruct (match pr_updater pr with Some b => destroy_binding w1 b | None => ok w1 end) as [w2 [ex|]] eqn:Hu; [discriminate H|].
+    destruct (kill_table w2 (pr_destroyed pr)) as [w3 [ex|]] eqn:K3; [discriminate H|].
+    destruct (kill_table w3 (pr_moved pr)) as [w4 [ex|]] eqn:K4; [discriminate H|].
+    destruct (kill_table w4 (pr_changed pr)) as [w5 [ex|]] eqn:K5; [discriminate H|].
+    destruct (kill_table w5 (pr_about pr)) as [w6 [ex|]] eqn:K6; [discriminate H|]. inversion H; subst w'; clear H.
+    destruct (kill_table_keeps _ _ _ K3) as (P3 & B3 & S3). destruct (kill_table_keeps _ _ _ K4) as (P4 & B4 & S4).
+    destruct (kill_table_keeps _ _ _ K5) as (P5 & B5 & S5). destruct (kill_table_keeps _ _ _ K6) as (P6 & B6 & S6).
+    assert (S01 : forall t pos ser s0, slot_at w1 t pos ser s0 -> slot_at w t pos ser s0).
+    { intros t pos ser s0 (sl & fr & al & Et & En). exists sl, fr, al. split; [|exact En]. unfold tview, get_table in *. rewrite T1 in Et. exact Et. }
+    assert (G01 : forall b, get_bind w1 b = get_bind w b) by (intros b; unfold get_bind; rewrite B1; reflexivity).
+    (* the binding of p, if any, dies; every other binding is untouched *)
+    assert (H2 : w_props w2 = w_props w /\ (forall t pos ser s0, slot_at w2 t pos ser s0 -> slot_at w t pos ser s0) /\
+                 forall b, pr_updater pr <> Some b -> get_bind w2 b = get_bind w b).
+    { destruct (pr_updater pr) as [bp|] eqn:Hub.
+      - assert (Hinv1 : pinv w1).
+        { eapply pinvg_views; [|exact Hinv]. split; [intros b; unfold bview; rewrite G01; reflexivity|]. split; [intros t; unfold tview, get_table; rewrite T1; reflexivity|].
+          split; [intros q; unfold pview; rewrite P1; reflexivity|]. split; [exact O1|]. split; [exact Hd1|]. split; [exact Sr1|rewrite B1; reflexivity]. }
+        destruct (destroy_binding_pinvg _ _ _ _ _ _ _ _ _ Hinv1 (fun z => z) Hu) as (_ & _ & _ & _ & I5 & _ & _ & _ & _ & Hsl & _).
+        split; [rewrite I5; exact P1|]. split; [intros t pos ser s0 Hs; apply S01, Hsl; exact Hs|].
+        intros b Hb. rewrite (destroy_binding_get_bind _ _ _ _ Hu b) by congruence. apply G01.
+      - inversion Hu; subst w2. split; [exact P1|]. split; [exact S01|]. intros b _. apply G01. }
+    destruct H2 as (P2 & S2 & G2).
+    set (w' := set_props w6 (remove_key (w_props w6) p)).
+    assert (Pw : w_props w' = remove_key (w_props w) p) by (unfold w'; cbn [set_props w_props]; rewrite P6, P5, P4, P3, P2; reflexivity).
+    assert (Gw : forall b, pr_updater pr <> Some b -> get_bind w' b = get_bind w b).
+    { intros b Hb. rewrite <- (G2 b Hb). unfold get_bind, w'; cbn [set_props w_binds]. rewrite B6, B5, B4, B3. reflexivity. }
+    assert (Sw : forall t pos ser s0, slot_at w' t pos ser s0 -> slot_at w t pos ser s0).
+    { intros t pos ser s0 Hs. apply S2, S3, S4, S5, S6. exact Hs. }
+    assert (Ek : forall wa ot wb, kill_table wa ot = (wb, None) -> w_evps wb = w_evps wa).
+    { intros wa ot wb K. destruct (kill_table_cases _ _ _ _ K) as [[_ E]|[(-> & _)|(_ & t & _ & Ke)]]; [discriminate E|reflexivity|exact (ke_evps _ _ _ Ke)]. }
+    assert (Ev6 : w_evps w' = w_evps w2) by (unfold w'; cbn [set_props w_evps]; rewrite (Ek _ _ _ K6), (Ek _ _ _ K5), (Ek _ _ _ K4), (Ek _ _ _ K3); reflexivity).
+    assert (Gb6 : forall b, get_bind w' b = get_bind w2 b) by (intros b; unfold get_bind, w'; cbn [set_props w_binds]; rewrite B6, B5, B4, B3; reflexivity).
+    exists pr. split; [reflexivity|]. split; [exact Pw|]. split; [exact Gw|]. split; [exact Sw|]. split.
+    - unfold w'; cbn [set_props w_binds]. rewrite B6, B5, B4, B3.
+      destruct (pr_updater pr) as [bp|]; [|inversion Hu; subst w2; rewrite B1; reflexivity].
+      pose proof (PropReg.destroy_binding_rmono w1 bp) as _. pose proof (destroy_binding_tmono w1 bp) as _.
+      assert (L : length (w_binds (fst (destroy_binding w1 bp))) = length (w_binds w1)).
+      { unfold destroy_binding. destruct (get_bind w1 bp) as [x|]; [|reflexivity].
+        match goal with |- context [unsubscribe_all ?W ?HS] => rewrite (unsubscribe_all_binds HS W) end.
+        unfold put_bind; cbn [set_binds w_binds]. rewrite upd_length. destruct (nth_error (w_evps w1) (b_evp x)); reflexivity. }
+      rewrite Hu in L. cbn [fst] in L. rewrite L, B1. reflexivity.
+    - destruct (pr_updater pr) as [bp|].
+      + exists w1. split; [exact E1|]. split; [apply G01|]. rewrite Hu. cbn [fst]. split; [exact Ev6|apply Gb6].
+      + inversion Hu; subst w2. rewrite Ev6. exact E1.
   Qed.
 
   Lemma grow_del fuel w p w' :
